@@ -277,3 +277,38 @@ Proof.
   apply (bounds_unique p off Hwf c' c (w_now (run p off (start_world p off t0) ops))); [|exact Hb].
   unfold bounds. unfold pP in Hhi. lia.
 Qed.
+
+(* ---- an address learned at any time survives the following period ---------- *)
+Lemma run_app p off w a b : run p off w (a ++ b) = run p off (run p off w a) b.
+Proof. unfold run. apply fold_left_app. Qed.
+
+Lemma step_now_mono p off w o : op_ok o -> w_now w <= w_now (step p off w o).
+Proof. destruct o; cbn [step op_ok w_now]; lia. Qed.
+
+Lemma run_now_mono p off ops : forall w, Forall op_ok ops -> w_now w <= w_now (run p off w ops).
+Proof.
+  induction ops as [|o r IH]; intros w Hf; [cbn; lia|].
+  inversion Hf; subst. unfold run. cbn [fold_left].
+  etransitivity; [apply (step_now_mono p off w o); assumption|]. apply IH. assumption.
+Qed.
+
+Lemma address_survives_l p off t0 ops1 ops2 : history_ok p off t0 (ops1 ++ ops2) ->
+  let w1 := run p off (start_world p off t0) ops1 in
+  let w2 := run p off w1 ops2 in
+  w_now w2 < c_end (served (w_mgr w1)) - pS p + pP p ->
+  In (served (w_mgr w2)) (m_addr (w_mgr w1)) /\ In (served (w_mgr w2)) (m_ser (w_mgr w1)) /\
+  (served (w_mgr w2) = served (w_mgr w1) \/ served (w_mgr w2) = m_next (w_mgr w1)).
+Proof.
+  intros (Hwf & Hoff & Ht & Hops). apply Forall_app in Hops as [Ho1 Ho2]. cbv zeta.
+  set (w1 := run p off (start_world p off t0) ops1).
+  assert (Hw1 : winv p off w1) by (apply run_winv; try assumption; apply start_winv; assumption).
+  assert (Hw2 : winv p off (run p off w1 ops2)) by (apply run_winv; assumption).
+  pose proof (run_now_mono p off ops2 w1 Ho2) as Hmono.
+  destruct Hw1 as (c & hl & E1 & (Hc0 & B1 & B2)). destruct Hw2 as (c' & hl' & E2 & (Hc0' & B1' & B2')).
+  rewrite E1, E2. unfold served. cbn [m_cur m_next m_addr m_ser mgr_at cfg_at c_end]. intros Hlt.
+  destruct Hwf as (HS & HP & _).
+  assert (Hg : grid p off c' = grid p off c + (c' - c) * pP p) by (unfold grid; ring).
+  assert (c' = c \/ c' = c + 1) as [-> | ->] by (unfold pP in *; nia).
+  - split; [cbn; tauto|]. split; [apply in_or_app; right; cbn; tauto|]. left. reflexivity.
+  - split; [cbn; tauto|]. split; [apply in_or_app; right; cbn; tauto|]. right. reflexivity.
+Qed.
